@@ -235,7 +235,11 @@ def run_program_check(prop, tier, seed):
         print(f"[{prop}] harness problem in {len(S['harness'])} program(s): {f[1][:300]}")
     if S["mine"]:
         (f, prog) = S["mine"][0]
-        small = shrink(prop, prog, f)
+        # directed / corpus programs are minimal already; an invalid request owes its invalidity to the
+        # steps before it (deleting them can turn it into a valid one that is "not rejected")
+        fixed_prog = "cell" in prog or any(prog is r["program"] for r in fixed)
+        failing_invalid = 0 <= f[2] < len(prog["steps"]) and prog["steps"][f[2]].get("kind") == "invalid"
+        small = prog if (fixed_prog or failing_invalid) else shrink(prop, prog, f)
         path = CL.write_replay(prop, {"property": prop, "finding": f[1], "step": f[2], "program": small, "original_program": prog,
                                       "how": f"./check {prop} --replay <this file>"})
         print(f"[{prop}] {len(S['mine'])} program(s) violate the property; first: {f[1][:300]}")
